@@ -71,6 +71,15 @@ def activity(cfg, log, label):
         log.append([label, "spec-rejected", type(e).__name__])
         return None
     st = dict(cfg.get("settings") or {})
+    if cfg.get("io"):
+        # protocol mode against the party classes defined in the spec itself; the log is the message sequence
+        from fandango.language.grammar import FuzzingMode
+        try:
+            res = f.fuzz(mode=FuzzingMode.IO, random_seed=cfg.get("random_seed", 0), population_size=1, desired_solutions=cfg.get("runs", 1))
+            log.append([label, "io-run", [[[str(m.sender), str(m.recipient), str(m.msg)] for m in t.protocol_msgs()] for t in res]])
+        except Exception as e:
+            log.append([label, "io-raised", type(e).__name__, str(e)[:160]])
+        return f
     if cfg.get("fuzz", True):
         try:
             sols = f.fuzz(random_seed=cfg.get("random_seed", 0), **st)
